@@ -107,12 +107,54 @@ def keyword_spellings(ctx, rid):
             ctx.violation(rid, f"keyword-alias:{ty}", f"the spellings {sorted(sps)} all lex to the keyword token {ty}", file=lx.rel, function="_keyword_map")
 
 
+C99_WHITE_SPACE = {" ": "space", "\t": "horizontal tab", "\n": "new-line", "\v": "vertical tab", "\f": "form feed"}
+
+
+def white_space(ctx, rid):
+    """C99 6.4p3: white space between tokens is space, horizontal tab, new-line, vertical tab and form feed.  The scanning loop of
+    CLexer.token must skip each of them: a character-dispatch arm whose patterns are white-space characters and whose body only moves the
+    cursor / line bookkeeping (no token, no error call).  A white-space character without such an arm falls into the token matcher and is
+    reported as an illegal character - a valid translation unit is rejected."""
+    lx = S.module("c_lexer")
+    tok = lx.method("CLexer", "token")
+    if tok is None:
+        raise AnalysisError("anchor CLexer.token vanished")
+    skipped = {}
+    for n in ast.walk(tok):
+        if not isinstance(n, ast.match_case):
+            continue
+        pats = n.pattern.patterns if isinstance(n.pattern, ast.MatchOr) else [n.pattern]
+        vals = [p.value.value for p in pats if isinstance(p, ast.MatchValue) and isinstance(p.value, ast.Constant)]
+        if not vals or len(vals) != len(pats) or not all(isinstance(v, str) and len(v) == 1 for v in vals):
+            continue
+        calls = [c for st in n.body for c in ast.walk(st) if isinstance(c, ast.Call)]
+        rets = [r for st in n.body for r in ast.walk(st) if isinstance(r, ast.Return)]
+        moves = any(isinstance(a, ast.AugAssign) and isinstance(a.op, ast.Add) and S.unparse(a.target).endswith("_pos") for st in n.body for a in ast.walk(st))
+        if not calls and not rets and moves and n.guard is None:
+            for v in vals:
+                skipped[v] = n
+    if len(skipped) < 2:
+        raise AnalysisError("white-space arms of CLexer.token not found (expected a character dispatch on text[self._pos])")
+    for ch, name in C99_WHITE_SPACE.items():
+        ok = ch in skipped
+        ctx.oblige(rid, f"white-space character {name} is skipped between tokens", ok, sample={"rule": rid, "character": repr(ch), "verdict": "skipped by a cursor-only arm" if ok else "NOT skipped"})
+        if not ok:
+            ctx.violation(rid, f"white-space:{name}", f"{name} ({ch!r}) is white space in C99 (6.4p3) but CLexer.token has no arm that skips it: it reaches the token matcher and is reported as an illegal character, "
+                          f"so a valid translation unit such as {'int' + ch + 'x;'!r} is rejected", file=lx.rel, function="CLexer.token", line=tok.lineno)
+    for ch, n in sorted(skipped.items()):
+        if ch not in C99_WHITE_SPACE and ch != "\r":
+            ctx.oblige(rid, f"skipped character {ch!r} is white space", False)
+            ctx.violation(rid, f"skips-non-space:{ch!r}", f"CLexer.token silently skips {ch!r}, which is not white space in C: text containing it is accepted as if it were not there",
+                          file=lx.rel, function="CLexer.token", line=n.pattern.lineno)
+
+
 def check(ctx):
     ctx.rule("R-C01.1", "vocabulary: every C99 keyword / documented C11 keyword maps to a token type; every C99 punctuator is exactly one fixed token")
     ctx.rule("R-C01.2", "token-type closure: the parser only tests token types the lexer can emit; every emittable token type is consumed by some production")
     ctx.rule("R-C01.3", "inclusion of the reference grammar (ISO C99 Annex A.2 + documented C11) in the extracted grammar model, on a derivation-covering sentence set")
     ctx.rule("R-C01.6", "every well-formed C99 literal (and documented extension) is lexed as one token of its class (decided by the C10 machinery)")
     ctx.rule("R-C01.7", "a valid program is not refused by an internal error: every assert and partial operation reachable from parse() is discharged (decided by the C06 machinery)")
+    ctx.rule("R-C01.8", "white space: each of C99's white-space characters (space, horizontal tab, new-line, vertical tab, form feed) is skipped between tokens by a cursor-only arm of the scanning loop")
     ctx.rule("R-C01.4", "guard adequacy: no token a called production can start with is rejected by the look-ahead guards on every path")
     t = S.tables()
     lx, px = S.module("c_lexer"), S.module("c_parser")
@@ -140,6 +182,9 @@ def check(ctx):
     dup = {tt for tt in {x for x, _ in t.fixed_tokens} if [x for x, _ in t.fixed_tokens].count(tt) > 1}
     for tt in sorted(dup):
         ctx.violation("R-C01.1", f"dup-token:{tt}", f"token type {tt} is produced by two different punctuator spellings", file=lx.rel, function="_fixed_tokens")
+
+    white_space(ctx, "R-C01.8")
+    ctx.require_instances("R-C01.8", 5)
 
     # ---- E1 ----------------------------------------------------------------------
     ex, g = e1.get()
